@@ -4,6 +4,7 @@
 -/
 import Djc.Proofs.Render
 import Djc.Proofs.Calm
+import Djc.Proofs.Inject
 import Djc.Spec.Render
 namespace Djc.Props.C05
 open Djc.Tpl Djc.Render Djc.Proofs.Render
@@ -244,5 +245,99 @@ theorem payload_invisible_without_inject (env : Env) (fuel : Nat) (key : Str) (k
   cases fuel with
   | zero => simp [Djc.Proofs.Calm.asN, Djc.Proofs.Calm.cNode]
   | succ n => simp [Djc.Proofs.Calm.asN, Djc.Proofs.Calm.cNode]
+
+/-- **`inject()` returns the provider's keyword arguments — end to end, with the bookkeeping** (django mode).  The page
+`{% provide key … %}{% component name … %}{% endcomponent %}{% endprovide %}` rendered while no other provider is alive,
+the component's `get_context_data` calling `inject(key)`: `ProvideNode.render` (key layer, `provide_cache`, the
+provider's own reference), `register_provide_reference`, `inject()` through the context key and the cache, the deferred
+render of the consumer, `unregister_provide_reference` when it has finished, `cache_cleanup` when the provider closes.
+The model of the code prints what the reading of the property prints — the consumer's template sees, under every
+injecting data name, exactly the provider's keyword arguments as evaluated at the `{% provide %}` tag — and `provide_cache`,
+`provide_references`, `all_reference_ids`, `component_context_cache`, `component_renderer_cache` are afterwards what they
+were.  All contexts, worlds, kwargs, plain templates with usable names. -/
+theorem provider_consumer_end_to_end_django (env : Env) (i : Nat) (key ik : Str) (kwP : List (Str × Expr)) (name : Str)
+    (kwargs : List (Str × Expr)) (dyn : Bool) (ctx ctx1 : Ctx) (w : World) (e : Djc.SpecRender.SEnv)
+    (s : Djc.SpecRender.SState) (d : CompDef) (toks : List Tok) (st : Nat)
+    (hmode : env.isolated = false)
+    (hkey : isIdentifier key = true) (hik : ik = injectPrefix ++ key)
+    (hctx1 : ctx1 = ctx ++ [[(ik, .provRef w.nextId)]])
+    (hr : env.raiseAt = none) (hd : findDef env name = some d) (hdyn : isDynName name = false)
+    (hp : Djc.Proofs.Plain.plainL d.template = true) (ho : Djc.Proofs.Calm.okNamesL d.template = true)
+    (hkwok : kwargs.all (fun kv => Djc.Proofs.Calm.okExpr kv.2) = true)
+    (hsteps : ¬ w.steps + 1 ≥ env.maxSteps) (hgcd : w.gcds < env.maxInst)
+    (hext : isExtracting ctx1 = false)
+    (hpar : ∀ p, ctxGet ctx1 compKey ≠ some (.compRef p))
+    (hpc : w.provideCache = []) (hpr : w.provideRefs = [])
+    (hids : provIdsOf ctx1 = [w.nextId]) (hinj : Djc.Proofs.Inject.injectsFrom ctx1 w.nextId d.data)
+    (hinjk : Djc.Proofs.Inject.injectsKey key d.data)
+    (hf1 : alGet (w.nextId + 1) w.ctxCache = none) (hf2 : alGet (w.nextId + 1) w.rendererCache = none)
+    (hf3 : alGet (w.nextId + 1) w.childAttrs = none) (hf4 : w.allRefIds.contains (w.nextId + 1) = false)
+    (hc : Djc.Proofs.Plain.ctxFree (Djc.Proofs.Inject.leafCtxI ctx1 (w.nextId + 1) (evalKwargs ctx1 kwargs) (evalKwargs ctx kwP) d) = true)
+    (hok : Djc.Proofs.Plain.pNodes env.maxSteps (i + 1) d.template
+      (Djc.Proofs.Inject.leafCtxI ctx1 (w.nextId + 1) (evalKwargs ctx1 kwargs) (evalKwargs ctx kwP) d) (w.steps + 2) = (.ok toks, st))
+    (he : e.vars = ctx) (hsid : s.nextId = w.nextId + 1) (hss : s.steps = w.steps) (hidle : ¬ s.nextId > env.maxInst)
+    (hc2 : Djc.Proofs.Plain.ctxFree (Djc.Proofs.Inject.specVarsI false ctx (w.nextId + 1) (evalKwargs ctx kwargs) (evalKwargs ctx kwP) d) = true) :
+    let r := (renderNode env (i + 8) (.provide key kwP [.comp name kwargs false dyn []]) ctx).run.run w
+    r.1 = .ok (.marker name (w.nextId + 1) :: addRootAttrs [idAttr (w.nextId + 1)] toks) ∧
+      r.2.provideCache = w.provideCache ∧ r.2.provideRefs = w.provideRefs ∧ r.2.allRefIds = w.allRefIds ∧
+      r.2.ctxCache = w.ctxCache ∧ r.2.rendererCache = w.rendererCache ∧
+      ∃ s', (Djc.SpecRender.sNode env (i + 8) (.provide key kwP [.comp name kwargs false dyn []]) e).run s =
+        .ok (.marker name (w.nextId + 1) :: addRootAttrs [idAttr (w.nextId + 1)] toks, s') := by
+  have hl : (false || env.isolated) = false := by rw [hmode]; rfl
+  have hbase : ∀ k, Djc.Proofs.Calm.internal k = false → ctxGet ctx1 k = ctxGet (if false || env.isolated then [[]] else ctx) k := by
+    intro k hk
+    rw [hl, hctx1, ctxGet_append_one]
+    have hne : ¬ ik = k := by
+      intro e; subst e
+      rw [hik, Djc.Proofs.Calm.internal_injectKey] at hk; cases hk
+    simp [lookupL, hne]
+  obtain ⟨h1, s', h2, _⟩ := Djc.Proofs.Inject.provide_consumer_model_eq_spec env i key ik kwP name kwargs false dyn ctx ctx1 ctx1
+    w e s d toks st hkey hik hctx1 (by rw [hl]; rfl) hr hd hdyn hp ho hkwok hsteps hgcd hext hpar hpc hpr hids hinj hinjk
+    hf1 hf2 hf3 hf4 hc hok he hsid hss hidle (by rw [hl]; exact hc2) hbase
+  simp only
+  rw [h1]
+  exact ⟨rfl, rfl, rfl, rfl, rfl, rfl, s', h2⟩
+
+section InjectExample
+deriving instance DecidableEq for Err
+deriving instance DecidableEq for Except
+
+def cDef : CompDef :=
+  { name := "c0".toList, template := [.elem "b".toList [.out (.var ["g".toList, "a".toList])]],
+    data := [("g".toList, .inject "k".toList none)] }
+def cEnv : Env := { isolated := false, lib := [cDef] }
+def cCtx : Ctx := rootCtx []
+def cCtx1 : Ctx := cCtx ++ [[(injectPrefix ++ "k".toList, .provRef 1)]]
+
+/-- `{% provide "k" a="A" %}{% component "c0" %}{% endcomponent %}{% endprovide %}`, where `c0` does
+`g = self.inject("k")` and prints `<b>{{ g.a }}</b>`: the hypotheses of the theorem hold, the consumer prints the
+provider's `a`. -/
+example :
+    ((renderNode cEnv 16 (.provide "k".toList [("a".toList, .lit "A".toList)] [.comp "c0".toList [] false false []]) cCtx).run.run {}).1 =
+      .ok [.marker "c0".toList 2, .opn "b".toList [idAttr 2], .text "A".toList, .cls "b".toList] := by
+  have h0 : (ctxGet cCtx1 compKey).isNone = true := by decide +kernel
+  have hpar : ∀ p, ctxGet cCtx1 compKey ≠ some (.compRef p) := by
+    intro p hp; rw [hp] at h0; cases h0
+  have hfd : findDef cEnv "c0".toList = some cDef := by
+    simp [findDef, cEnv, cDef]
+  have hinj1 : (match ctxGet cCtx1 (injectPrefix ++ "k".toList) with | some (.provRef p) => p == 1 | _ => false) = true := by
+    decide +kernel
+  have hinj : Djc.Proofs.Inject.injectsFrom cCtx1 1 cDef.data := by
+    simp only [cDef, Djc.Proofs.Inject.injectsFrom, and_true]
+    cases hg : ctxGet cCtx1 (injectPrefix ++ "k".toList) with
+    | none => rw [hg] at hinj1; cases hinj1
+    | some v =>
+      rw [hg] at hinj1
+      cases v <;> first | (simp at hinj1; subst hinj1; rfl) | cases hinj1
+  have h := (provider_consumer_end_to_end_django cEnv 8 "k".toList (injectPrefix ++ "k".toList) [("a".toList, .lit "A".toList)]
+    "c0".toList [] false cCtx cCtx1 {} (.mk cCtx [] none []) { nextId := 2 } cDef
+    [.opn "b".toList [], .text "A".toList, .cls "b".toList] 4
+    rfl (by decide +kernel) rfl rfl rfl hfd (by decide +kernel) (by decide +kernel) (by decide +kernel) (by decide +kernel)
+    (by decide +kernel) (by decide +kernel) (by decide +kernel) hpar rfl rfl (by decide +kernel) hinj
+    (by simp [cDef, Djc.Proofs.Inject.injectsKey]) rfl rfl rfl rfl (by decide +kernel) (by decide +kernel)
+    rfl rfl rfl (by decide +kernel) (by decide +kernel)).1
+  rw [h]
+  decide +kernel
+end InjectExample
 
 end Djc.Props.C05
